@@ -1949,3 +1949,63 @@ def r_contraction_result_reduces(prog: Program, col: Collector, refs: Refs, cat:
                       f"`{norm(ret.value)[:60]}` does not depend on `{V}` and is not guarded by any test on `{R}` or `{V}`: the reduction over `{V}` is dropped, so the reduced "
                       "variables stay free in the rewritten term", f.loc(ret))
     col.cur.analysed["contraction_rule_returns"] = n
+
+
+# ---------------------------------------------------------------------- operand order in rules for Binary
+
+
+def r_binary_rule_operand_order(prog: Program, col: Collector, refs: Refs, cat: Catalogue, rule: str):
+    """A rule registered for Binary(op, lhs, rhs) over a *class* of ops (BinaryOp, or any pattern that admits a non-commutative op)
+    re-applies `op` to values derived from its operands.  The value in the first position must come from `lhs` and the one in the
+    second from `rhs`: the swapped call is x op y -> y op x, right only for commutative ops (t - c becomes c - t)."""
+    from ..dataflow import param_deps
+    from ..cfg import CFG
+    col.rule(rule, "a Binary rule re-applies its op with the operands in the order it received them", floor=6)
+    seen = set()
+    n = 0
+    for reg in cat.registrations:
+        f = reg.target
+        if f is None or not reg.pattern or len(reg.pattern) < 4 or isinstance(f.node, ast.Lambda) or f.fq in seen:
+            continue
+        if not reg.registry.startswith("funsor.interpretations."):
+            continue
+        head = refs.resolve(reg.pattern[0]) if isinstance(reg.pattern[0], (ast.Name, ast.Attribute)) else None
+        if head != "funsor.terms.Binary" or len(f.positional) != 3:
+            continue
+        # does the op pattern admit a non-commutative op?
+        ref = cat.op_class_ref(refs.resolve(reg.pattern[1]) if isinstance(reg.pattern[1], (ast.Name, ast.Attribute)) else None)
+        under = cat.ops_under(ref) if ref is not None else []
+        abstracts = {axioms.identify(cat, o) for o in under}
+        if under and None not in abstracts and abstracts <= axioms.COMMUTATIVE:
+            continue
+        seen.add(f.fq)
+        opn, lhs, rhs = f.positional
+        cfg = None
+        for c in [x for x in walk_no_nested(f.node) if isinstance(x, ast.Call)]:
+            if isinstance(c.func, ast.Name) and c.func.id == opn and len(c.args) == 2:
+                a, b = c.args
+            elif refs.resolve(c.func) == "funsor.terms.Binary" and len(c.args) == 3 and isinstance(c.args[0], ast.Name) and c.args[0].id == opn:
+                a, b = c.args[1], c.args[2]
+            else:
+                continue
+            if any(isinstance(x, ast.Starred) for x in (a, b)):
+                continue
+            cfg = cfg or CFG(f.node)
+            st = c
+            while not isinstance(st, ast.stmt):
+                st = f.module.parent.get(st)
+            da = param_deps(f, a, st, cfg=cfg) & {lhs, rhs}
+            db = param_deps(f, b, st, cfg=cfg) & {lhs, rhs}
+            n += 1
+            construct = f"{f.fq}::{norm(c)[:60]}"
+            if da == {rhs} and db == {lhs}:
+                guards = [g for g in f.module.ancestors(c) if isinstance(g, ast.If)]
+                tested = any(opn in {x.id for x in ast.walk(g.test) if isinstance(x, ast.Name)} for g in guards)
+                col.check(tested, construct, "operands swapped under a test on the op",
+                          f"`{norm(c)[:60]}` applies `{opn}` to (a value of `{rhs}`, a value of `{lhs}`): the operands are swapped, which is x {opn} y -> y {opn} x and right "
+                          f"only for commutative ops; the rule is registered for {norm(reg.pattern[1])}, which includes sub, truediv, pow, ...", f.loc(c))
+            elif da <= {lhs} and db <= {rhs}:
+                col.ok(construct, "first position from the left operand, second from the right one", f.loc(c), nontrivial=bool(da and db))
+            else:
+                col.ok(construct, f"positions mix both operands ({sorted(da)}, {sorted(db)}): not judged", f.loc(c), nontrivial=False)
+    col.cur.analysed["op_reapplications_in_binary_rules"] = n
